@@ -3,6 +3,7 @@ import BevySyncModel.Proofs.EntLive
 import BevySyncModel.Generated.Filter
 import BevySyncModel.Generated.Ent
 import BevySyncModel.Generated.Snap
+import BevySyncModel.Proofs.World
 /-! # C01 — every peer converges to the same set of synchronized entities
 
 One uuid per slice (`Slice/Ent.lean`): the uuid is drawn once by `created` on the origin and no action
@@ -136,6 +137,19 @@ example :
                        .pollH 1 1, .pollC 1 1, .pollC 2 2, .pollC 2 1]
     s.host.count = 0 ∧ s.clients.map (·.p.count) = [0, 0] ∧ s.clients.all (fun c => c.up.isEmpty && c.down.isEmpty) = true := by
   decide
+
+/-- **joins (whole world, `Slice/World.lean`).** A client that joins afresh ends with exactly one replica of every entity the
+host tracks and of nothing else, however many entities and archetypes the snapshot spans; a client that returns holding
+replicas gets no second replica of a uuid it knows (the duplicate guard) and every uuid of the host (what it keeps beyond
+that is C03's finding D16) -/
+theorem C01_join_entity_set (w : WorldSnap.World) (hw : WorldSnap.WF w) :
+    (WorldSnap.applyAll {} (WorldSnap.snapshot w)).ents = WorldSnap.uuids w ∧
+    (WorldSnap.applyAll {} (WorldSnap.snapshot w)).ents.Nodup :=
+  ⟨(WorldSnap.snapshot_rebuilds w hw).1, by rw [(WorldSnap.snapshot_rebuilds w hw).1]; exact hw.nodup⟩
+
+theorem C01_rejoin_entity_set (w : WorldSnap.World) (hw : WorldSnap.WF w) (c0 : WorldSnap.Client) (u : Nat) :
+    u ∈ (WorldSnap.applyAll c0 (WorldSnap.snapshot w)).ents ↔ u ∈ c0.ents ∨ u ∈ WorldSnap.uuids w :=
+  (WorldSnap.snapshot_on_returning w hw c0).1 u
 
 end Props
 end BevySync
